@@ -86,6 +86,50 @@ fn concrete_edit(src: &str, shape: &Value, rng: &mut Rng) -> (usize, usize, Stri
       return (s, e - s, name.to_string());
     }
   }
+  if kind < 9 {
+    // in-place replacement of the same length that changes what the text means: the edit moves nothing, but
+    // the old tree must still be told (identifier <-> number, operator, keyword swaps)
+    let b = src.as_bytes();
+    let mut toks: Vec<(usize, usize, String)> = vec![];
+    let mut i = 0;
+    while i < b.len() {
+      let c = b[i];
+      if c.is_ascii_alphabetic() || c == b'_' {
+        let st = i;
+        while i < b.len() && (b[i].is_ascii_alphanumeric() || b[i] == b'_') {
+          i += 1;
+        }
+        let w = &src[st..i];
+        let rep = match w {
+          "var" => "let".to_string(),
+          "let" => "var".to_string(),
+          "true" => "null".to_string(),
+          "null" => "true".to_string(),
+          _ => "7".repeat(w.len()),
+        };
+        toks.push((st, i, rep));
+      } else if c.is_ascii_digit() {
+        let st = i;
+        while i < b.len() && b[i].is_ascii_digit() {
+          i += 1;
+        }
+        toks.push((st, i, "k".repeat(i - st)));
+      } else {
+        if c == b'+' || c == b'-' {
+          toks.push((i, i + 1, "*".to_string()));
+        } else if c == b'*' {
+          toks.push((i, i + 1, "+".to_string()));
+        } else if c == b',' {
+          toks.push((i, i + 1, ";".to_string()));
+        }
+        i += 1;
+      }
+    }
+    if !toks.is_empty() {
+      let (st, en, rep) = rng.pick(&toks[..]).clone();
+      return (st, en - st, rep);
+    }
+  }
   let pos = if shape["atLineStart"] == true {
     *rng.pick(&line_starts)
   } else if shape["atEnd"] == true {
